@@ -45,3 +45,33 @@ func reduceNumber(v slip.Object) slip.Object {
 	}
 	return v
 }
+
+// normalizeNumber normalizes two numbers with slip.NormalizeNumber except
+// when one is a ratio and the other a bignum. slip.NormalizeNumber makes
+// long-floats of that pair which loses the exact value so the bignum is
+// made a ratio instead, just as a fixnum would be.
+func normalizeNumber(v0, v1 slip.Object) (n0, n1 slip.Object) {
+	if _, ok := v0.(*slip.Ratio); ok {
+		v1 = bigToRatio(v1)
+	} else if _, ok = v1.(*slip.Ratio); ok {
+		v0 = bigToRatio(v0)
+	}
+	return slip.NormalizeNumber(v0, v1)
+}
+
+// bigToRatio returns a ratio with a denominator of one for a bignum or for
+// a signed-byte or unsigned-byte that is too large for a fixnum. Any other
+// value is returned as is.
+func bigToRatio(v slip.Object) slip.Object {
+	switch tv := v.(type) {
+	case *slip.SignedByte:
+		v = tv.AsFixOrBig()
+	case *slip.UnsignedByte:
+		v = tv.AsFixOrBig()
+	}
+	if bi, ok := v.(*slip.Bignum); ok {
+		var z big.Rat
+		v = (*slip.Ratio)(z.SetInt((*big.Int)(bi)))
+	}
+	return v
+}
